@@ -36,7 +36,7 @@ class Ctx:
         self.coverage: dict = {}
         self.assumptions: list[str] = []
         self.t0 = time.time()
-        self.scratch = tempfile.mkdtemp(prefix=f"verif-{prop}-", dir=os.environ.get("VERIF_SCRATCH") or "/var/tmp")
+        self.scratch = tempfile.mkdtemp(prefix=f"verif-{prop}-", dir=os.environ.get("VERIF_SCRATCH") or ("/dev/shm" if os.access("/dev/shm", os.W_OK) else "/var/tmp"))
         os.environ["VERIF_SCRATCH"] = self.scratch
         self.notes: list[str] = []
     @property
@@ -86,9 +86,10 @@ def finish(ctx: Ctx) -> int:
     return rc
 
 def parallel_map(fn, items, procs=16, chunksize=1):
-    """multiprocessing map with fork; fn must be top-level picklable."""
+    """Process-pool map (fork); fn must be a top-level function. A dead worker raises (machinery failure)."""
+    from concurrent.futures import ProcessPoolExecutor
     import multiprocessing as mp
     if procs <= 1 or len(items) <= 1:
         return [fn(x) for x in items]
-    with mp.get_context("fork").Pool(min(procs, len(items))) as pool:
-        return pool.map(fn, items, chunksize)
+    with ProcessPoolExecutor(min(procs, len(items)), mp_context=mp.get_context("fork")) as ex:
+        return list(ex.map(fn, items, chunksize=chunksize))
